@@ -7,7 +7,8 @@ EXPLANATION = ("C17: (R1) the pairing rule (name of the current token, when its 
                "discipline of the reverse token iterator (UTF-16 columns vs UTF-8 byte offsets, cache tuple order, same-line "
                "reuse, non-panicking slices); (R3) identifier classes decided over all ASCII code points and sampled "
                "non-ASCII ones against the Unicode tables' verdict, (R3b) strip_identifier's end offset is always a char "
-               "boundary and the slice exclusive; (R4) panic-freedom.")
+               "boundary and the slice exclusive; (R4) panic-freedom."
+               " (R5) views are fresh and never reset in place; (R6) the line splitting get_line performs.")
 NOT_DECIDED = "that the right declaration is found for all programs (heuristic by design)."
 
 RULES = {
